@@ -1342,8 +1342,20 @@ func (r *seqRun) stepReaddir(name string, op Op, hr handleRef, base *mnode) {
 			r.vio(r.own("readdir-continuation-failed"), "", "%s: page %d failed with %s", name, call, nfsclient.NFSStatName(res.Status))
 			return
 		}
-		if !isDir {
-			return
+		if !isDir || r.loose {
+			// the listing is not of the directory the model thinks of (stale or reused handle):
+			// the handle values it carries are remembered as unattributable
+			for _, e := range res.Entries {
+				if e.FH != nil {
+					if r.reissued == nil {
+						r.reissued = map[string]bool{}
+					}
+					r.reissued[string(e.FH)] = true
+				}
+			}
+			if !isDir {
+				return
+			}
 		}
 		r.checkAttr(op.Op+".dir", hr.path, res.DirAttr)
 		total, _ := res.EncodedSize(plus)
@@ -1368,7 +1380,7 @@ func (r *seqRun) stepReaddir(name string, op Op, hr handleRef, base *mnode) {
 				if e.Attr != nil {
 					r.checkAttr(op.Op, child, e.Attr)
 				}
-				if e.FH != nil {
+				if e.FH != nil && !r.loose {
 					r.addHandle(e.FH, child)
 				}
 			}
